@@ -133,13 +133,20 @@ def indexNames (db : Db) : List String :=
 def checkMentionsOk (s : Schema) : Bool :=
   s.checks.all (fun c => c.mentions.all (fun m => (s.cols.map (·.name)).contains m))
 
-/-- `CREATE [UNIQUE] INDEX` on table `t` in database `db` -/
+/-- does the row belong to the (partial) index?  SQL `WHERE`: a NULL operand makes the predicate not true -/
+def rowInIndex (cols : List ColDef) (ix : Index) (r : Row) : Bool :=
+  match ix.wherePred with
+  | some p => cell cols r p.col != .null && evalPred p (cell cols r p.col)
+  | none => true
+
+/-- `CREATE [UNIQUE] INDEX … [WHERE …]` on table `t` in database `db` -/
 def addIndex (db : Db) (t : Tbl) (ix : Index) : Except Err Tbl :=
   if (indexNames db).contains ix.name then .error .alreadyExists
-  else if !ix.cols.all (fun c => (colIndex t.schema.cols c).isSome) then .error .noSuchColumn
+  else if !ix.cols.all (fun c => (colIndex t.schema.cols c).isSome) ||
+          !ix.whereMentions.all (fun c => (colIndex t.schema.cols c).isSome) then .error .noSuchColumn
   else if ix.unique && (insertRows { t.schema with pk := none, uniques := [{ kind := .unique, name := none, cols := ix.cols }],
                                                     checks := [], cols := t.schema.cols.map (fun c => { c with nullable := true }) }
-                                  [] t.rows).toOption.isNone then .error .unique
+                                  [] (t.rows.filter (rowInIndex t.schema.cols ix))).toOption.isNone then .error .unique
   else .ok { t with schema := { t.schema with indexes := t.schema.indexes ++ [ix] } }
 
 def applyStmt (ct : ConvTable) (db : Db) : Stmt → Except Err Db
